@@ -2815,3 +2815,146 @@ func init() {
 	addRules("C02", rRegexChoice("R02.23"))
 	addRules("C03", rRegexChoice("R03.25"))
 }
+
+// ------------------------------------------------------------------ round 14
+
+func init() {
+	for prop, id := range map[string]string{"C01": "R01.28", "C02": "R02.24", "C04": "R04.17"} {
+		id := id
+		addRules(prop, func(w *World, r *Report) {
+			subRule(w, r, rC03Iterator, id, "the parser is handed every token, as typed, and knows where the list ends: the argument iterator returns elements verbatim and judges positions by idx and len alone (same obligations as C03 R03.6)", 5)
+		})
+	}
+}
+
+// rUnboundedByDefault (R14.17 / R15.15): a graph that was given no limit starts every ready task at once: the default
+// NewGraph stores in maxParallel is a constant of at least the reference's 1_000_000. A small default makes the surplus
+// goroutines of a big graph wait for a slot - and start their tasks after Run has seen a cancellation or a failure.
+func rUnboundedByDefault(id string) func(w *World, r *Report) {
+	return func(w *World, r *Report) {
+		ru := r.Rule(id, "no hidden limit: NewGraph initialises maxParallel with a constant >= 1_000_000 (tasks that are ready are started, not queued behind a default bound)", 1)
+		fn := w.Fn("dag.NewGraph")
+		if fn == nil {
+			ru.Undecided("anchor", "-", "NewGraph not found")
+			return
+		}
+		n := 0
+		eachInstr(fn, func(in ssa.Instruction) {
+			if _, f, v, ok := storeField(in); ok && f.Name() == "maxParallel" {
+				n++
+				k, isC := constInt(v)
+				ru.Check(isC && k >= 1000000, "NewGraph/maxParallel", w.IPos(in), "effectively unbounded", "NewGraph bounds the parallelism of a graph that asked for no bound: ready tasks queue behind the default and are started late (after a cancellation or a failure was observed)")
+			}
+		})
+		if n == 0 {
+			ru.Bad("NewGraph/maxParallel", w.Pos(fn.Pos()), "NewGraph does not initialise maxParallel: a zero capacity makes every task goroutine block for ever")
+		}
+	}
+}
+
+func init() {
+	addRules("C14", rUnboundedByDefault("R14.17"))
+	addRules("C15", rUnboundedByDefault("R15.15"))
+	addRules("C03", func(w *World, r *Report) {
+		subRule(w, r, rC04OptionalMin, "R03.26", "how many tokens an option takes is fixed by its kind: option.New gives every kind one value (mandatory or optional) or none (same obligations as C04 R04.5)", 3)
+	})
+	addRules("C07", func(w *World, r *Report) {
+		subRule(w, r, rC04OptionalMin, "R07.18", "a flag never reaches for the next token, bundled or not: option.New gives flags the bounds (0,0) (same obligations as C04 R04.5)", 3)
+	})
+	addRules("C05", func(w *World, r *Report) {
+		subRule(w, r, rC06Definers, "R05.20", "what is declared is registered: every definer (and its value-returning wrapper) hands the modifiers on, so declared aliases exist (same obligations as C06 R06.5)", 24)
+	})
+	addRules("C08", rC19NilMaps)
+	addRules("C13", func(w *World, r *Report) {
+		subRule(w, r, rC16InsertOnly, "R13.15", "a task keeps its dependencies when it is added again: the vertex table is insert-only (same obligations as C16 R16.2)", 1)
+	})
+	addRules("C02", rFieldWriters("R02.25", "option", "Option", "ValidValues",
+		"the set of accepted values is declared by the ValidValues modifier only (a suggestion never restricts what the program reads)",
+		"(*getoptions.GetOpt).ValidValues$"))
+}
+
+func init() {
+	addRules("C07", rArgCountWriters("R07.19"))
+	addRules("C10", func(w *World, r *Report) {
+		subRule(w, r, rC11CheckRequired, "R10.23", "a command whose required options were given is run: CheckRequired reports an error exactly for a required option that was not supplied (same obligations as C11 R11.6)", 4)
+	}, func(w *World, r *Report) {
+		subRule(w, r, rC06Definers, "R10.24", "the command function sees the declared default of an option that was not given: every definer stores it through the pointer (same obligations as C06 R06.5)", 24)
+	})
+}
+
+// rSynopsisArgIndex (R19.11): the helper a command function calls for its positional arguments names the missing one
+// without panicking: every index into programTree.SynopsisArgs by SynopsisArgsIdx is dominated by
+// len(SynopsisArgs) > SynopsisArgsIdx (the counter only grows from 0, and no write of it lies between the test and
+// the index). `len(SynopsisArgs) > 0` is not enough once a command asks for more arguments than it declared.
+func rSynopsisArgIndex(id string) func(w *World, r *Report) {
+	return func(w *World, r *Report) {
+		ru := r.Rule(id, "GetRequiredArg never indexes past the declared argument names: SynopsisArgs[SynopsisArgsIdx] only under len(SynopsisArgs) > SynopsisArgsIdx", 1)
+		n := 0
+		for _, fn := range w.Funcs {
+			if w.PkgOfFn(fn) == nil {
+				continue
+			}
+			var ig *IG
+			eachInstr(fn, func(in ssa.Instruction) {
+				ia, ok := in.(*ssa.IndexAddr)
+				if !ok {
+					return
+				}
+				if _, isSA := loadOfFieldNamed(ia.X, "SynopsisArgs"); !isSA {
+					return
+				}
+				if _, isIdx := loadOfFieldNamed(ia.Index, "SynopsisArgsIdx"); !isIdx {
+					return // a range loop or a constant: judged by the general panic obligations when reachable
+				}
+				n++
+				good := false
+				for _, f := range factsAt(ia.Block()) {
+					if f.Y == nil {
+						continue
+					}
+					x, y, op := f.X, f.Y, f.Op
+					if op == token.LSS {
+						x, y, op = y, x, token.GTR
+					}
+					if op != token.GTR {
+						continue
+					}
+					c, ok := lenOf(x)
+					if !ok {
+						continue
+					}
+					_, a := loadOfFieldNamed(c, "SynopsisArgs")
+					_, b := loadOfFieldNamed(y, "SynopsisArgsIdx")
+					if a && b {
+						good = true
+					}
+				}
+				// no write of the counter between the test and the index
+				if good {
+					if ig == nil {
+						ig = buildIG(fn)
+					}
+					eachInstr(fn, func(i2 ssa.Instruction) {
+						if _, f, _, ok := storeField(i2); ok && f.Name() == "SynopsisArgsIdx" {
+							if ig.reachPlain(ig.after(i2), nil)[ig.idx[in]] {
+								good = false
+							}
+						}
+					})
+				}
+				ru.Check(good, "SynopsisArgs/index/"+short(fn), w.IPos(ia), "indexed under len > idx", "SynopsisArgs is indexed by the argument counter without `len(SynopsisArgs) > SynopsisArgsIdx`: a command that asks for more required arguments than it named panics with index out of range when the command line runs short")
+			})
+		}
+		if n == 0 {
+			ru.Present("SynopsisArgs/index", "-", "SynopsisArgs is never indexed by the argument counter")
+		}
+	}
+}
+
+func init() { addRules("C19", rSynopsisArgIndex("R19.11")) }
+
+func init() {
+	addRules("C09", func(w *World, r *Report) {
+		subRule(w, r, rC10CopyOptions, "R09.16", "what follows `help` under require-order is handed back untouched: the help command never receives the level's options (same obligations as C10 R10.5)", 3)
+	})
+}
